@@ -44,3 +44,10 @@ func verifXattrsWellFormed(x []byte) bool                   { panic("intrinsic")
 func verifJSONValid(x []byte) bool                          { panic("intrinsic") }
 func verifJSONCanon(x []byte) []byte                        { panic("intrinsic") }
 func verifEncodeValueWithXattrs(body, xattrs []byte) []byte { panic("intrinsic") }
+
+func verifCut(fn string)                { panic("intrinsic") } // give a function an empty body (recorded as outside the claim)
+func verifIsSystemXattr(u string) bool { panic("intrinsic") }
+
+func verifConcat(a, b []byte) []byte                      { panic("intrinsic") }
+func verifIsCounter(b []byte, n uint64) bool              { panic("intrinsic") }
+func verifCollLastCasAt(db *sql.DB, snap int, id int64) int64 { panic("intrinsic") }
